@@ -64,6 +64,25 @@ pub fn run(c: &[S]) -> Option<S> {
                 ],
             )
         }
+        // (after_panic k table A B (op arg ...)): binary_op(A, B, closure) whose closure panics at its (k+1)-th call, caught here;
+        // then the inner operation is executed on the same thread and ITS result is the answer (state left behind by the
+        // unwound call must not leak into later operations)
+        "after_panic" => {
+            let k = d_usize(&a[0]);
+            let f = table2(d_table(&a[1], 9));
+            let (x, y) = (d_bdd(&a[2]), d_bdd(&a[3]));
+            let calls = std::cell::Cell::new(0usize);
+            let _ = std::panic::catch_unwind(std::panic::AssertUnwindSafe(|| {
+                Bdd::binary_op(&x, &y, |l, r| {
+                    calls.set(calls.get() + 1);
+                    if calls.get() > k {
+                        panic!("scripted operator panic");
+                    }
+                    f(l, r)
+                })
+            }));
+            crate::ops::run(a[4].as_list())
+        }
         "val_hist" => {
             let st = a[0].as_list();
             let mut v = match st[0].as_atom() {
